@@ -8,6 +8,7 @@ cNoMax == -1
 
 CxPOk == POk \/ ~PrintT(<<"CX", ToJson(hist)>>)
 CxHeldBound == HeldBound \/ ~PrintT(<<"CX", ToJson(hist)>>)
+CxAccounting == Accounting \/ ~PrintT(<<"CX", ToJson(hist)>>)
 CxExact == Exact \/ ~PrintT(<<"CX", ToJson(hist)>>)
 
 \* witnesses (thorough tier): each is *expected to be violated* - the situation it denies is reached by the model
